@@ -424,6 +424,19 @@ def _holders(acts, in_thread=False):
             yield from _holders(a["script"], inside)
 
 
+def _block_depth_of(acts, target, depth=0):
+    """number of `attachw` blocks around the nested script `target` (one of `_holders(acts)`, by identity); None: not found"""
+    for a in acts:
+        if a["a"] in NESTED:
+            d = depth + (1 if a["a"] == "attachw" else 0)
+            if a["script"] is target:
+                return d
+            r = _block_depth_of(a["script"], target, d)
+            if r is not None:
+                return r
+    return None
+
+
 def gen_script(rng, cfg, p_fail, p_gate, max_len=4, kinds=None):
     steps = [0]
     acts = [_benign_act(rng, cfg, 0, steps) for _ in range(rng.choice([0, 1, 1, 2, 2, 3, max_len]))]
@@ -437,6 +450,13 @@ def gen_script(rng, cfg, p_fail, p_gate, max_len=4, kinds=None):
             # the failing act sits inside an lcc.Thread (any kind: `Thread.run` logs whatever ends the thread) or
             # inside an attachment block (the exception leaves the block, then the unit)
             sc, in_thread = rng.choice(nested)
+            if (_block_depth_of(acts, sc) or 0) < 2 and _block_depth_of(acts, sc) is not None:
+                # (room for one more block around the failing act: the same two shapes as below, inside an lcc.Thread or a block)
+                r2 = rng.random()
+                if r2 < 0.12 and "exc" in kinds:
+                    f = dict(SAVE_MISSING_FILE)
+                elif r2 < 0.30:
+                    f = {"a": "attachw", "write": "late", "script": [f]}
             sc.insert(rng.randint(0, len(sc)), f)
         else:
             r2 = rng.random()
